@@ -573,7 +573,7 @@ class Gen:
         if recv == ("path", ["vars"]) and name == "insert" and len(a) == 2:
             def ki(ts, env):
                 (kt, kty), (vt, vty) = ts
-                if kty != "str" or vty != "u32":
+                if kty != "str" or vty not in ("u32", "int"):
                     die("%s: vars.insert(%s, %s)" % (self.what, kty, vty))
                 m2 = self.fresh("vars")
                 env2 = dict(env)
